@@ -379,6 +379,9 @@ class Sender:
         await self._message_accumulator.flush_for_commit()
 
         txn_manager = self._txn_manager
+        if txn_manager.is_fatal_error():
+            # One of the flushed batches failed with a fatal error
+            return
 
         # If we never sent any data to begin with, no need to commit
         if txn_manager.is_empty_transaction():
@@ -819,6 +822,11 @@ class SendProduceReqHandler(BaseHandler):
             await self._client._maybe_wait_metadata()
 
     def handle_response(self, response):
+        txn_manager = self._sender._txn_manager
+        transactional = (
+            txn_manager is not None and txn_manager.transactional_id is not None
+        )
+        fatal_error = None
         for topic, partitions in response.topics:
             for partition_info in partitions:
                 global_error = None
@@ -876,6 +884,15 @@ class SendProduceReqHandler(BaseHandler):
                     else:
                         exc = error()
                     batch.failure(exception=exc)
+                    if transactional and isinstance(
+                        exc, (ProducerFenced, OutOfOrderSequenceNumber)
+                    ):
+                        # The transaction lost a batch for good and must not
+                        # be committed. Mark it right away: a pending commit
+                        # wakes up as soon as the batch's future is resolved.
+                        if fatal_error is None:
+                            txn_manager.fatal_error(exc)
+                        fatal_error = exc
                 else:
                     log.warning(
                         "Got error produce response on topic-partition"
@@ -887,6 +904,11 @@ class SendProduceReqHandler(BaseHandler):
                     if getattr(error, "invalid_metadata", False):
                         self._client.force_metadata_update()
                     self._to_reenqueue.append(batch)
+
+        if fatal_error is not None:
+            # Fail the producer, like the same errors of the transactional
+            # requests do.
+            raise fatal_error
 
     def handle_error(self):
         return self._default_backoff
